@@ -504,6 +504,10 @@ Proof.
   intros x [<-|[]]. exact Hk.
 Qed.
 
+Lemma kind_flags_non_deleting k :
+  kind_deletion k = false <-> (k = Derive \/ k = Fuzz \/ k = Abbrev).
+Proof. destruct k; cbn; intuition congruence. Qed.
+
 (** * The statements of C09, algebra part *)
 
 (** the script spells syllable [s] as [k] *)
